@@ -13,6 +13,7 @@ pub use variation::std_dev;
 
 #[derive(Debug)]
 pub enum Arr2DError {
+    NoConvergence,
     InconsistentRowLengths,
     NonSquareMatrix,
     SingularMatrix,
